@@ -316,6 +316,10 @@ class MPool:
                 return
             seen = obs.forced_mem(c)
             if seen is None:
+                if obs.was_killed(c, self):
+                    # killed at pool level in its forced tick and the reading is gone: any value in [0, peak] is allowed,
+                    # so the victim order cannot be judged
+                    raise Discard("forced-tick memory of a killed container not observable")
                 seen = pk
             if seen < 0 or seen > pk + BAND * max(1, pk):
                 raise Violation("C05.mem.forced_tick", {"container": c.label, "seen": float(seen), "peak": float(pk)})
